@@ -148,7 +148,7 @@ Ln(kind, cert, files) == [kind |-> kind, cert |-> cert, files |-> files]
 Pair(c) == Ln("pair", c, <<>>)
 F(name, ext, kind, cert) == [name |-> name, ext |-> ext, kind |-> kind, cert |-> cert]
 \* the directory of a `load`: entries in the lexical order filepath.Walk visits them.  kind: bundle
-\* (certificate then key) | keyfirst | ecparams (certificate, EC PARAMETERS block, EC key: what openssl ecparam
+\* (certificate then key) | keyfirst (key, certificate, a second foreign key: only the first key counts) | ecparams (certificate, EC PARAMETERS block, EC key: what openssl ecparam
 \* -genkey writes) | dir (a sub-directory) | certonly | keyonly | garbage | empty |
 \* unknown (a block of a type loadCertsInDir does not know) | mismatch (certificate with another key)
 GoodDir(ids) ==
